@@ -31,6 +31,7 @@ BOUNDED = {"KSI_snprintf": 1, "KSI_vsnprintf": 1, "snprintf": 1, "vsnprintf": 1,
 
 def run(prog, chk):
     tostring_table(prog, chk)
+    rendering_is_written(prog, chk)
     _run(prog, chk)
 
 
@@ -283,3 +284,86 @@ def tostring_table(prog, chk):
             chk.ob("C12.tostring", inst, ok,
                    "rendering %r%s" % (text[:60], "" if ok else ("; WRITES OUTSIDE the buffer at offsets %s" % oob if oob else "; no terminating NUL inside the buffer")),
                    loc=fn.loc(), fn=fn, nontrivial=size in (0, 1, 27, 200))
+
+
+STRINIT_REVIEWED = {
+    # one named function each, with the reason the unwritten path cannot be taken
+    "KSI_OctetString_toString": "the loop is skipped only for an empty octet string, and an empty octet string has no data pointer (KSI_OctetString_new "
+                                "allocates only for data_len > 0): the function has returned NULL before the loop (confirmed by running it on a parsed empty value)",
+    "KSI_DataHash_toString": "the loop is skipped only when the imprint is empty - every hash object holds at least the algorithm octet (alloc / fromImprint / "
+                             "fromDigest check the length against the algorithm) - or when the caller's buffer has no room at all, not even for a terminator",
+}
+
+
+def rendering_is_written(prog, chk):
+    """A rendering function `char *f(..., char *buf, size_t len)` hands its buffer back as the result; callers format that result as a
+    string.  On every path on which the buffer is handed back (returned, or stored into the result variable) something has been written
+    through it before - a store through the pointer or a call that receives it (or a position inside it).  A path that hands back a
+    buffer nobody wrote makes the caller print memory the function never initialised (read up to the next zero octet, wherever it is)."""
+    from ksirules.model import walk, is_var
+    chk.rule("C12.strinit", "a rendering function hands its buffer back only after writing to it on that path (no unwritten buffer is returned as a string)", floor=8)
+
+    def buf_based(fn, e, buf, depth=0):
+        e = fn.resolve(strip(e))
+        while isinstance(e, dict) and e.get("k") in ("cast", "paren"):
+            e = fn.resolve(strip(e["e"]))
+        if is_var(e, buf):
+            return True
+        if isinstance(e, dict) and e.get("k") == "bin" and e.get("op") in ("+", "-") and depth < 4:
+            return buf_based(fn, e["l"], buf, depth + 1) or buf_based(fn, e["r"], buf, depth + 1)
+        if isinstance(e, dict) and e.get("k") == "un" and e.get("op") == "&" and depth < 4:
+            x = fn.resolve(strip(e["e"]))
+            if isinstance(x, dict) and x.get("k") == "idx":
+                return buf_based(fn, x["b"], buf, depth + 1)
+        return False
+    n = 0
+    for fn in sorted(prog.all_functions(), key=lambda f: (f.unit, f.line)):
+        ps = fn.params
+        cands = [ps[k]["n"] for k in range(len(ps) - 1) if ps[k]["t"].replace(" ", "") == "char*" and ps[k + 1]["t"] in ("size_t", "unsigned", "unsigned int", "int")]
+        if not cands or fn.ret.replace(" ", "") != "char*":
+            continue
+        buf = cands[0]
+        first_w, hand = {}, {}
+        for b, i, el in fn.elems():
+            e = el["e"]
+            if not isinstance(e, dict):
+                continue
+            for m in walk(e):
+                k = m.get("k")
+                if k == "asg":
+                    l = strip(m["l"])
+                    if (l.get("k") == "idx" and buf_based(fn, l["b"], buf)) or (l.get("k") == "un" and l.get("op") == "*" and buf_based(fn, l["e"], buf)):
+                        first_w.setdefault(b, i)
+                    elif l.get("k") == "var" and l.get("s") == "local" and "char" in (l.get("t") or "") and buf_based(fn, m["r"], buf):
+                        hand.setdefault(b, []).append(i)
+                elif k == "call":
+                    if any(buf_based(fn, a, buf) for a in m["a"]):
+                        first_w.setdefault(b, i)
+                elif k == "ret" and m.get("e") is not None and buf_based(fn, m["e"], buf):
+                    hand.setdefault(b, []).append(i)
+        if not hand:
+            continue        # a wrapper that passes the buffer on and returns the callee's result
+        hit = None
+        seen, work = {fn.entry}, [fn.entry]
+        while work and hit is None:
+            b = work.pop()
+            w = first_w.get(b)
+            for i in hand.get(b, []):
+                if w is None or i < w:
+                    hit = (b, i)
+            if w is not None:
+                continue
+            for e in fn.succ[b]:
+                if e.dst not in seen:
+                    seen.add(e.dst)
+                    work.append(e.dst)
+        n += 1
+        if hit is not None and fn.name in STRINIT_REVIEWED:
+            chk.ob("C12.strinit", fn.name, True, "a path without a write exists in the flow graph; reviewed: " + STRINIT_REVIEWED[fn.name], loc=fn.loc(), fn=fn, nontrivial=False)
+            continue
+        chk.ob("C12.strinit", fn.name, hit is None,
+               "every path handing %s back has written through it" % buf if hit is None else
+               "%s is handed back at line %s on a path on which nothing was written through it (no store, no call receiving it): the caller "
+               "formats memory this function never initialised" % (buf, fn.elem_line(*hit)), loc=fn.loc(fn.elem_line(*hit)) if hit else fn.loc(), fn=fn)
+    if n < 8:
+        raise AnalysisBroken("C12.strinit: only %d rendering functions found" % n)
